@@ -1,0 +1,318 @@
+//go:build verif
+
+package cardinality
+
+// Contracts for the govc verifier (/verif/DESIGN.md). Package clause and comments only.
+//
+// Abstract view. Every exact (duplex) provider denotes a finite set of integers. The set lives in one
+// ghost component, read with setview(c) for a "cell" c: the identity of the mutable object that
+// carries the state. cellof(p) maps an interface value to its cell; the three axioms below define it
+// for the implementations of this package (a bitmap's cell is its roaring bitmap, a thread-safe
+// wrapper's cell is the cell of what it wraps). For any other implementation cellof is left
+// uninterpreted, so a proof about "any Duplex operand" cannot depend on how the operand is built.
+// viewof(p) abbreviates setview(cellof(p)).
+
+//@ import roaring64 "github.com/RoaringBitmap/roaring/v2/roaring64"
+//@ import roaring "github.com/RoaringBitmap/roaring/v2"
+
+//@ axiom cell64: forall p Provider[T] :: allocated(p) && typeof(p) == bitmap64 ==> cellof(p) == p.(bitmap64).bitmap
+//@ axiom cell32: forall p Provider[T] :: allocated(p) && typeof(p) == bitmap32 ==> cellof(p) == p.(bitmap32).bitmap
+//@ axiom cellTS: forall p Provider[T] :: allocated(p) && typeof(p) == threadSafeDuplex[T] ==> cellof(p) == cellof(p.(threadSafeDuplex[T]).provider)
+
+// ---- the Duplex interface contract: what any implementation promises, in terms of viewof -----------------
+
+//@ iface func (d Duplex[T]) Add(values ...T)
+//@   modifies setview(cellof(d))
+//@   ensures forall y T :: (y in viewof(d)) == (old(y in viewof(d)) || y in set(values))
+//@ iface func (d Duplex[T]) Remove(value T)
+//@   modifies setview(cellof(d))
+//@   ensures viewof(d) == old(viewof(d)) minus {value}
+//@ iface func (d Duplex[T]) Contains(value T) bool
+//@   ensures result == (value in viewof(d))
+//@ iface func (d Duplex[T]) CheckedAdd(value T) bool
+//@   modifies setview(cellof(d))
+//@   ensures result == !old(value in viewof(d)) && viewof(d) == old(viewof(d)) union {value}
+//@ iface func (d Duplex[T]) Cardinality() uint64
+//@   ensures result == card(viewof(d))
+//@ iface func (d Duplex[T]) Clear()
+//@   modifies setview(cellof(d))
+//@   ensures viewof(d) == {}
+//@ iface func (d Duplex[T]) Slice() []T
+//@   ensures result.arr == nil || fresh(result.arr)
+//@   ensures len(result) == card(viewof(d))
+//@   ensures forall y T :: (y in viewof(d)) == (y in set(result))
+//@ iface func (d Duplex[T]) Clone() Duplex[T]
+//@   allocates roaring64.Bitmap, roaring.Bitmap
+//@   ensures result != nil && fresh(cellof(result)) && viewof(result) == viewof(d)
+//@ iface func (d Duplex[T]) Each(delegate func(value T) bool)
+//@   iterates viewof(d) with delegate
+//@ iface func (d Duplex[T]) Or(other Provider[T])
+//@   requires other != nil && implements(other, Duplex) && cellof(other) != cellof(d) && allocated(cellof(other))
+//@   modifies setview(cellof(d))
+//@   ensures viewof(d) == old(viewof(d)) union old(viewof(other))
+//@ iface func (d Duplex[T]) And(other Provider[T])
+//@   requires other != nil && implements(other, Duplex) && cellof(other) != cellof(d) && allocated(cellof(other))
+//@   modifies setview(cellof(d))
+//@   ensures viewof(d) == old(viewof(d)) inter old(viewof(other))
+//@ iface func (d Duplex[T]) AndNot(other Provider[T])
+//@   requires other != nil && implements(other, Duplex) && cellof(other) != cellof(d) && allocated(cellof(other))
+//@   modifies setview(cellof(d))
+//@   ensures viewof(d) == old(viewof(d)) minus old(viewof(other))
+//@ iface func (d Duplex[T]) Xor(other Provider[T])
+//@   requires other != nil && implements(other, Duplex) && cellof(other) != cellof(d) && allocated(cellof(other))
+//@   modifies setview(cellof(d))
+//@   ensures viewof(d) == (old(viewof(d)) minus old(viewof(other))) union (old(viewof(other)) minus old(viewof(d)))
+
+// ---- bitmap64: the same contract with cell = s.bitmap ------------------------------------------------------
+// operand(s, p): what the set-algebra operations require of their operand: a bitmap64 (native path) or
+// any other Duplex implementation whose state is not the receiver's own bitmap (fallback path).
+
+//@ pure func operand64(s bitmap64, p Provider[uint64]) bool {
+//@   s.bitmap != nil && p != nil
+//@   && (typeof(p) == bitmap64 ==> p.(bitmap64).bitmap != nil)
+//@   && (typeof(p) != bitmap64 ==> implements(p, Duplex) && cellof(p) != s.bitmap && allocated(cellof(p)))
+//@ }
+
+//@ func NewBitmap64() Duplex[uint64]
+//@   nomod
+//@   ensures typeof(result) == bitmap64 && result.(bitmap64).bitmap != nil && fresh(result.(bitmap64).bitmap) && viewof(result) == {}
+
+//@ func (s bitmap64) Add(values ...uint64)
+//@   requires s.bitmap != nil
+//@   modifies setview(s.bitmap)
+//@   ensures forall y uint64 :: (y in setview(s.bitmap)) == (old(y in setview(s.bitmap)) || y in set(values))
+//@ func (s bitmap64) Remove(value uint64)
+//@   requires s.bitmap != nil
+//@   modifies setview(s.bitmap)
+//@   ensures setview(s.bitmap) == old(setview(s.bitmap)) minus {value}
+//@ func (s bitmap64) Contains(value uint64) bool
+//@   requires s.bitmap != nil
+//@   nomod
+//@   ensures result == (value in setview(s.bitmap))
+//@ func (s bitmap64) CheckedAdd(value uint64) bool
+//@   requires s.bitmap != nil
+//@   modifies setview(s.bitmap)
+//@   ensures result == !old(value in setview(s.bitmap)) && setview(s.bitmap) == old(setview(s.bitmap)) union {value}
+//@ func (s bitmap64) Cardinality() uint64
+//@   requires s.bitmap != nil
+//@   nomod
+//@   ensures result == card(setview(s.bitmap))
+//@ func (s bitmap64) Clear()
+//@   requires s.bitmap != nil
+//@   modifies setview(s.bitmap)
+//@   ensures setview(s.bitmap) == {}
+//@ func (s bitmap64) Slice() []uint64
+//@   requires s.bitmap != nil
+//@   nomod
+//@   ensures result.arr == nil || fresh(result.arr)
+//@   ensures len(result) == card(setview(s.bitmap))
+//@   ensures forall y uint64 :: (y in setview(s.bitmap)) == (y in set(result))
+//@ func (s bitmap64) Clone() Duplex[uint64]
+//@   requires s.bitmap != nil
+//@   nomod
+//@   ensures typeof(result) == bitmap64 && fresh(result.(bitmap64).bitmap) && viewof(result) == setview(s.bitmap)
+//@ func (s bitmap64) Or(provider Provider[uint64])
+//@   requires operand64(s, provider)
+//@   modifies setview(s.bitmap)
+//@   ensures setview(s.bitmap) == old(setview(s.bitmap)) union old(viewof(provider))
+//@   iter 0
+//@     invariant setview(s.bitmap) == old(setview(s.bitmap)) union visited
+//@ func (s bitmap64) Xor(provider Provider[uint64])
+//@   requires operand64(s, provider)
+//@   modifies setview(s.bitmap)
+//@   ensures forall y uint64 :: (y in setview(s.bitmap)) == (old(y in setview(s.bitmap)) != old(y in viewof(provider)))
+//@   iter 0
+//@     invariant providerCopy != nil && fresh(providerCopy) && setview(providerCopy) == visited && setview(s.bitmap) == old(setview(s.bitmap)) && iterset == old(viewof(provider))
+//@ func (s bitmap64) And(provider Provider[uint64])
+//@   requires operand64(s, provider)
+//@   modifies setview(s.bitmap)
+//@   ensures forall y uint64 :: (y in setview(s.bitmap)) == (old(y in setview(s.bitmap)) && old(y in viewof(provider)))
+//@   iter 0
+//@     invariant owned: (removals.arr == nil || fresh(removals.arr)) && removals.off == 0
+//@     invariant collected: forall y uint64 :: (y in set(removals)) == (y in visited && !(y in viewof(provider)))
+//@     invariant same: iterset == old(setview(s.bitmap)) && viewof(provider) == old(viewof(provider))
+//@   loop 0
+//@     invariant range: -1 <= rangeindex && rangeindex < len(removals)
+//@     invariant removed: forall y uint64 :: (y in setview(s.bitmap)) == (old(y in setview(s.bitmap)) && !(y in set(removals[..rangeindex+1])))
+//@     invariant same: viewof(provider) == old(viewof(provider))
+//@ func (s bitmap64) AndNot(provider Provider[uint64])
+//@   requires operand64(s, provider)
+//@   modifies setview(s.bitmap)
+//@   ensures forall y uint64 :: (y in setview(s.bitmap)) == (old(y in setview(s.bitmap)) && !old(y in viewof(provider)))
+//@   iter 0
+//@     invariant owned: (removals.arr == nil || fresh(removals.arr)) && removals.off == 0
+//@     invariant collected: forall y uint64 :: (y in set(removals)) == (y in visited && y in viewof(provider))
+//@     invariant same: iterset == old(setview(s.bitmap)) && viewof(provider) == old(viewof(provider))
+//@   loop 0
+//@     invariant range: -1 <= rangeindex && rangeindex < len(removals)
+//@     invariant removed: forall y uint64 :: (y in setview(s.bitmap)) == (old(y in setview(s.bitmap)) && !(y in set(removals[..rangeindex+1])))
+//@     invariant same: viewof(provider) == old(viewof(provider))
+
+// ---- bitmap32: the same contract with cell = s.bitmap ------------------------------------------------------
+// operand(s, p): what the set-algebra operations require of their operand: a bitmap32 (native path) or
+// any other Duplex implementation whose state is not the receiver's own bitmap (fallback path).
+
+//@ pure func operand32(s bitmap32, p Provider[uint32]) bool {
+//@   s.bitmap != nil && p != nil
+//@   && (typeof(p) == bitmap32 ==> p.(bitmap32).bitmap != nil)
+//@   && (typeof(p) != bitmap32 ==> implements(p, Duplex) && cellof(p) != s.bitmap && allocated(cellof(p)))
+//@ }
+
+//@ func NewBitmap32() Duplex[uint32]
+//@   nomod
+//@   ensures typeof(result) == bitmap32 && result.(bitmap32).bitmap != nil && fresh(result.(bitmap32).bitmap) && viewof(result) == {}
+
+//@ func (s bitmap32) Add(values ...uint32)
+//@   requires s.bitmap != nil
+//@   modifies setview(s.bitmap)
+//@   ensures forall y uint32 :: (y in setview(s.bitmap)) == (old(y in setview(s.bitmap)) || y in set(values))
+//@ func (s bitmap32) Remove(value uint32)
+//@   requires s.bitmap != nil
+//@   modifies setview(s.bitmap)
+//@   ensures setview(s.bitmap) == old(setview(s.bitmap)) minus {value}
+//@ func (s bitmap32) Contains(value uint32) bool
+//@   requires s.bitmap != nil
+//@   nomod
+//@   ensures result == (value in setview(s.bitmap))
+//@ func (s bitmap32) CheckedAdd(value uint32) bool
+//@   requires s.bitmap != nil
+//@   modifies setview(s.bitmap)
+//@   ensures result == !old(value in setview(s.bitmap)) && setview(s.bitmap) == old(setview(s.bitmap)) union {value}
+//@ func (s bitmap32) Cardinality() uint32
+//@   requires s.bitmap != nil
+//@   nomod
+//@   ensures result == card(setview(s.bitmap))
+//@ func (s bitmap32) Clear()
+//@   requires s.bitmap != nil
+//@   modifies setview(s.bitmap)
+//@   ensures setview(s.bitmap) == {}
+//@ func (s bitmap32) Slice() []uint32
+//@   requires s.bitmap != nil
+//@   nomod
+//@   ensures result.arr == nil || fresh(result.arr)
+//@   ensures len(result) == card(setview(s.bitmap))
+//@   ensures forall y uint32 :: (y in setview(s.bitmap)) == (y in set(result))
+//@ func (s bitmap32) Clone() Duplex[uint32]
+//@   requires s.bitmap != nil
+//@   nomod
+//@   ensures typeof(result) == bitmap32 && fresh(result.(bitmap32).bitmap) && viewof(result) == setview(s.bitmap)
+//@ func (s bitmap32) Or(provider Provider[uint32])
+//@   requires operand32(s, provider)
+//@   modifies setview(s.bitmap)
+//@   ensures setview(s.bitmap) == old(setview(s.bitmap)) union old(viewof(provider))
+//@   iter 0
+//@     invariant setview(s.bitmap) == old(setview(s.bitmap)) union visited
+//@ func (s bitmap32) Xor(provider Provider[uint32])
+//@   requires operand32(s, provider)
+//@   modifies setview(s.bitmap)
+//@   ensures forall y uint32 :: (y in setview(s.bitmap)) == (old(y in setview(s.bitmap)) != old(y in viewof(provider)))
+//@   iter 0
+//@     invariant providerCopy != nil && fresh(providerCopy) && setview(providerCopy) == visited && setview(s.bitmap) == old(setview(s.bitmap)) && iterset == old(viewof(provider))
+//@ func (s bitmap32) And(provider Provider[uint32])
+//@   requires operand32(s, provider)
+//@   modifies setview(s.bitmap)
+//@   ensures forall y uint32 :: (y in setview(s.bitmap)) == (old(y in setview(s.bitmap)) && old(y in viewof(provider)))
+//@   iter 0
+//@     invariant owned: (removals.arr == nil || fresh(removals.arr)) && removals.off == 0
+//@     invariant collected: forall y uint32 :: (y in set(removals)) == (y in visited && !(y in viewof(provider)))
+//@     invariant same: iterset == old(setview(s.bitmap)) && viewof(provider) == old(viewof(provider))
+//@   loop 0
+//@     invariant range: -1 <= rangeindex && rangeindex < len(removals)
+//@     invariant removed: forall y uint32 :: (y in setview(s.bitmap)) == (old(y in setview(s.bitmap)) && !(y in set(removals[..rangeindex+1])))
+//@     invariant same: viewof(provider) == old(viewof(provider))
+//@ func (s bitmap32) AndNot(provider Provider[uint32])
+//@   requires operand32(s, provider)
+//@   modifies setview(s.bitmap)
+//@   ensures forall y uint32 :: (y in setview(s.bitmap)) == (old(y in setview(s.bitmap)) && !old(y in viewof(provider)))
+//@   iter 0
+//@     invariant owned: (removals.arr == nil || fresh(removals.arr)) && removals.off == 0
+//@     invariant collected: forall y uint32 :: (y in set(removals)) == (y in visited && y in viewof(provider))
+//@     invariant same: iterset == old(setview(s.bitmap)) && viewof(provider) == old(viewof(provider))
+//@   loop 0
+//@     invariant range: -1 <= rangeindex && rangeindex < len(removals)
+//@     invariant removed: forall y uint32 :: (y in setview(s.bitmap)) == (old(y in setview(s.bitmap)) && !(y in set(removals[..rangeindex+1])))
+//@     invariant same: viewof(provider) == old(viewof(provider))
+
+// The concrete iteration primitive: enumerates the roaring iterator of s.bitmap. Its body drives a
+// caller-supplied delegate, which is outside what a first-order contract can verify; it is assumed
+// to meet the iteration contract (listed as an assumption in the evidence) and covered by the
+// bounded stand-in of this property.
+//@ func (s bitmap64) Each(delegate func(nextValue uint64) bool)
+//@   trusted
+//@   requires s.bitmap != nil
+//@   iterates ascending setview(s.bitmap) with delegate
+// The concrete iteration primitive: enumerates the roaring iterator of s.bitmap. Its body drives a
+// caller-supplied delegate, which is outside what a first-order contract can verify; it is assumed
+// to meet the iteration contract (listed as an assumption in the evidence) and covered by the
+// bounded stand-in of this property.
+//@ func (s bitmap32) Each(delegate func(nextValue uint32) bool)
+//@   trusted
+//@   requires s.bitmap != nil
+//@   iterates ascending setview(s.bitmap) with delegate
+
+// ---- threadSafeDuplex: same contract with cell = cellof(s.provider); every call on the wrapped provider happens
+// with the wrapper's mutex held (lock.held obligations), the mutex is not held on entry and released on exit.
+
+//@ monitor threadSafeDuplex.lock
+//@   callsvia provider
+
+//@ pure func tsOK(s threadSafeDuplex[T]) bool { s.lock != nil && s.lock.state == 0 && s.provider != nil }
+//@ pure func tsOperand(s threadSafeDuplex[T], o Provider[T]) bool { o != nil && implements(o, Duplex) && cellof(o) != cellof(s.provider) && allocated(cellof(o)) }
+
+//@ func ThreadSafeDuplex(provider Duplex[T]) Duplex[T]
+//@   requires provider != nil
+//@   nomod
+//@   ensures typeof(result) == threadSafeDuplex[T] && result.(threadSafeDuplex[T]).provider == provider && fresh(result.(threadSafeDuplex[T]).lock) && result.(threadSafeDuplex[T]).lock.state == 0
+//@   ensures cellof(result) == cellof(provider)
+
+//@ func (s threadSafeDuplex[T]) Add(values ...T)
+//@   requires tsOK(s)
+//@   modifies s.lock.state, setview(cellof(s.provider))
+//@   ensures s.lock.state == 0
+//@   ensures forall y T :: (y in viewof(s.provider)) == (old(y in viewof(s.provider)) || y in set(values))
+//@ func (s threadSafeDuplex[T]) Remove(value T)
+//@   requires tsOK(s)
+//@   modifies s.lock.state, setview(cellof(s.provider))
+//@   ensures s.lock.state == 0 && viewof(s.provider) == old(viewof(s.provider)) minus {value}
+//@ func (s threadSafeDuplex[T]) Contains(value T) bool
+//@   requires tsOK(s)
+//@   modifies s.lock.state
+//@   ensures s.lock.state == 0 && result == (value in viewof(s.provider))
+//@ func (s threadSafeDuplex[T]) CheckedAdd(value T) bool
+//@   requires tsOK(s)
+//@   modifies s.lock.state, setview(cellof(s.provider))
+//@   ensures s.lock.state == 0 && result == !old(value in viewof(s.provider)) && viewof(s.provider) == old(viewof(s.provider)) union {value}
+//@ func (s threadSafeDuplex[T]) Cardinality() uint64
+//@   requires tsOK(s)
+//@   modifies s.lock.state
+//@   ensures s.lock.state == 0 && result == card(viewof(s.provider))
+//@ func (s threadSafeDuplex[T]) Clear()
+//@   requires tsOK(s)
+//@   modifies s.lock.state, setview(cellof(s.provider))
+//@   ensures s.lock.state == 0 && viewof(s.provider) == {}
+//@ func (s threadSafeDuplex[T]) Slice() []T
+//@   requires tsOK(s)
+//@   modifies s.lock.state
+//@   ensures s.lock.state == 0 && len(result) == card(viewof(s.provider))
+//@   ensures forall y T :: (y in viewof(s.provider)) == (y in set(result))
+//@ func (s threadSafeDuplex[T]) Clone() Duplex[T]
+//@   requires tsOK(s)
+//@   modifies s.lock.state
+//@   ensures s.lock.state == 0 && result != nil && typeof(result) == threadSafeDuplex[T]
+//@   ensures fresh(cellof(result)) && viewof(result) == viewof(s.provider)
+//@ func (s threadSafeDuplex[T]) Or(other Provider[T])
+//@   requires tsOK(s) && tsOperand(s, other)
+//@   modifies s.lock.state, setview(cellof(s.provider))
+//@   ensures s.lock.state == 0 && viewof(s.provider) == old(viewof(s.provider)) union old(viewof(other))
+//@ func (s threadSafeDuplex[T]) And(other Provider[T])
+//@   requires tsOK(s) && tsOperand(s, other)
+//@   modifies s.lock.state, setview(cellof(s.provider))
+//@   ensures s.lock.state == 0 && viewof(s.provider) == old(viewof(s.provider)) inter old(viewof(other))
+//@ func (s threadSafeDuplex[T]) AndNot(other Provider[T])
+//@   requires tsOK(s) && tsOperand(s, other)
+//@   modifies s.lock.state, setview(cellof(s.provider))
+//@   ensures s.lock.state == 0 && viewof(s.provider) == old(viewof(s.provider)) minus old(viewof(other))
+//@ func (s threadSafeDuplex[T]) Xor(other Provider[T])
+//@   requires tsOK(s) && tsOperand(s, other)
+//@   modifies s.lock.state, setview(cellof(s.provider))
+//@   ensures s.lock.state == 0 && viewof(s.provider) == (old(viewof(s.provider)) minus old(viewof(other))) union (old(viewof(other)) minus old(viewof(s.provider)))
